@@ -179,6 +179,55 @@ class A(Adapter):
             return "all_pellets"
         return None
 
+    # ---- reach probes ------------------------------------------------------------------------------
+    def events(self, ps, action, s, ts, env, cfg):
+        g = np.asarray(s.grid)
+        R, C = g.shape
+        new = self._player(s)
+        gl1 = np.asarray(s.ghost_locations).reshape(-1, 2)
+        if ps is None:
+            pel = np.asarray(s.pellet_locations)
+            on_pellet = bool(((pel[:, 0] == new[1]) & (pel[:, 1] == new[0]) & pel.any(axis=1)).any())
+            return ["reset_player_on_pellet"] if on_pellet else []
+        a, old = int(action), self._player(ps)
+        ev = []
+        if a == 4:
+            ev.append("noop_played")
+        elif not self.legal(ps, env)[a]:
+            ev.append("move_blocked_by_wall")
+        if new != old and abs(new[0] - old[0]) + abs(new[1] - old[1]) > 1:
+            ev.append("player_tunnel_wrap_around")
+        ev += (["player_in_bottom_rows"] if new[0] >= 28 else []) + (["player_in_edge_column"] if new[1] in (0, C - 1) else [])
+        n_pel = int(self._live(ps.pellet_locations).sum()) - int(self._live(s.pellet_locations).sum())
+        n_pow = int(self._live(ps.power_up_locations).sum()) - int(self._live(s.power_up_locations).sum())
+        ev += (["pellet_eaten"] if n_pel > 0 else []) + (["power_up_eaten"] if n_pow > 0 else [])
+        scared0, scared1 = int(ps.frightened_state_time) > 0, int(s.frightened_state_time) > 0
+        if n_pow > 0 and scared0:
+            ev.append("power_up_eaten_while_scatter_active")
+        if scared0 and not scared1:
+            ev.append("scatter_mode_expired")
+        gl0 = np.asarray(ps.ghost_locations).reshape(-1, 2)
+        d = np.abs(gl1 - gl0) if gl0.shape == gl1.shape else np.zeros_like(gl1)
+        wrap = d[:, 0] == C - 1
+        jump = (d.sum(axis=1) > 1) & ~wrap  # a ghost normally moves one cell: a jump is a ghost sent back to its start cell
+        if jump.any():
+            rew = float(ts.reward)
+            ev.append(("ghost_eaten_while_scared" if rew >= 200.0 else "ghost_sent_home_while_scared_no_reward") if scared0 else "ghost_jump_outside_scatter_mode")
+            if scared0 and (rew >= 400.0 or int(jump.sum()) >= 2):
+                ev.append("two_ghosts_eaten_in_one_step")
+        touch = self._touches_ghost(ps, s)  # the liberal reading of "touches" (C11): may hold without the env ending the game
+        if touch and scared0 and not jump.any():
+            ev.append("ghost_contact_reading_while_scared_ghost_stays")
+        if touch and not scared0:
+            ev.append("end_caught_by_ghost" if int(ts.step_type) == 2 else "ghost_contact_reading_without_end")
+        if int(self._live(s.pellet_locations).sum()) == 0:
+            ev.append("end_all_pellets_eaten")
+        if wrap.any():
+            ev.append("ghost_tunnel_wrap_around")
+        if (gl1[:, 1] >= 28).any():
+            ev.append("ghost_in_bottom_rows")
+        return ev
+
     # ---- C12 -------------------------------------------------------------------------------------
     def observe(self, s, obs, env, cfg):
         for name in ("grid", "ghost_locations", "power_up_locations", "pellet_locations", "frightened_state_time", "score"):
@@ -246,7 +295,18 @@ class A(Adapter):
             r = rows.max() if want_bottom else rows.min()
             cs = cols[rows == r]
             corners.append((int(r), int(cs.max() if want_right else cs.min())))
-        target = corners[(int(s.step_count) // 45) % 4]
+        # the side tunnel: its two mouths are the corridor cells in the first and last column; heading from one mouth to a
+        # cell just inside the other side makes the shortest path go through the wrap-around
+        C = g.shape[1]
+        left = [(int(r), 0) for r in np.flatnonzero(g[:, 0] == 1)]
+        right = [(int(r), C - 1) for r in np.flatnonzero(g[:, C - 1] == 1)]
+        tour = list(corners)
+        if left and right:
+            inner_r = (right[0][0], C - 3) if g[right[0][0], C - 3] == 1 else right[0]
+            inner_l = (left[0][0], 2) if g[left[0][0], 2] == 1 else left[0]
+            tour = [left[0], inner_r, corners[1], corners[0], right[0], inner_l, corners[2], corners[3]]
+        # the tour starts at a run-dependent place (the reset key), so short episodes cover different legs
+        target = tour[(int(s.step_count) // 45 + int(np.asarray(s.key).reshape(-1)[-1]) % len(tour)) % len(tour)]
         dt = self._dist_from(g, [target])
         ghosts = [(int(r), int(c)) for c, r in np.asarray(s.ghost_locations).tolist()]
         d = self._dist_from(g, ghosts)
